@@ -15,7 +15,7 @@
 EXTENDS Naturals, Integers, Sequences, FiniteSets, TLC
 
 Chain == <<"parse", "convert", "eval", "validate", "serialise", "jsontext">>
-Side  == {"render", "format", "tokenize", "errordisplay", "wasmeval"}
+Side  == {"render", "format", "tokenize", "errordisplay", "wasmeval", "inline"}
 Stages == {Chain[i] : i \in 1..Len(Chain)} \cup Side
 Outcomes == {"ok", "err"}
 
